@@ -176,7 +176,7 @@ def shrink(pool, prog, fails, rounds=60):
     fails (`fails(list of programs) -> list of bool`)."""
     cur = prog
     for _ in range(rounds):
-        cands = sorted(set(G.shrink_candidates(cur)), key=size_of)[:300]
+        cands = sorted(set(G.shrink_candidates(cur)), key=size_of)[:150]
         if not cands:
             break
         flags = fails(cands)
@@ -274,7 +274,21 @@ def eval_stream(ck, pool, tier, syntaxes=("scss",)):
                 ck.cov["model_disagreements"] += 1
                 failing.append({"prog": progs[i], "impl": o, "model": asf[i], "spec": spec[i], "kind": "eval-sass",
                                 "scss": G.to_sass(progs[i])})
-        for (p, feats), io, mo, so in zip(chunk, impl, asf, spec):
+        # programs on which grass agrees with the as-found model but not with the specification:
+        # which as-found switch explains the difference?
+        kidx = [i for i in range(len(progs)) if impl[i] == asf[i] and asf[i] != spec[i]
+                and asf[i] not in MODEL_SKIP and spec[i] not in MODEL_SKIP]
+        ck.hist("known:any-as-found-switch", len(kidx))
+        kidx = sorted(kidx, key=lambda i: size_of(progs[i]))[:200]      # the smallest ones are enough to attribute
+        ktags = {i: [] for i in kidx}
+        for fl in DEV_ALL:
+            for i, o in zip(kidx, run_model([progs[i] for i in kidx], fl)):
+                if o != spec[i]:
+                    ktags[i].append(DEV_TAGS[fl])
+        for k_, (p, feats) in enumerate(chunk):
+            feats = list(feats)
+            chunk[k_] = (p, feats, ktags.get(k_))
+        for (p, feats, tags_), io, mo, so in zip(chunk, impl, asf, spec):
             if mo in MODEL_SKIP or so in MODEL_SKIP:
                 ck.cov["unsupported_dropped"] += 1
                 ck.hist("model:" + mo)
@@ -291,7 +305,9 @@ def eval_stream(ck, pool, tier, syntaxes=("scss",)):
                 ck.cov["model_disagreements"] += 1
                 failing.append({"prog": p, "impl": io, "model": mo, "spec": so, "kind": "eval"})
             elif io != so:
-                failing.append({"prog": p, "impl": io, "model": mo, "spec": so, "kind": "eval-known"})
+                for t in tags_ or []:
+                    ck.hist("known:" + t)
+                failing.append({"prog": p, "impl": io, "model": mo, "spec": so, "kind": "eval-known", "tags": tuple(tags_ or ())})
     return failing
 
 
@@ -348,7 +364,7 @@ def scope_stream(ck, pool, tier):
     checks = []
     for ops, ob, runline in zip(opss, obs_all, outs):
         m = re.match(r"ok (\S+) \| (\S+) ", runline)
-        spec = m.group(2).split(",") if m and m.group(2) != "-" else []
+        spec = m.group(2).split(",") if m and ops else []
         cut = next((j for j, o in enumerate(spec) if o == "u"), None)
         k = len(ops) if cut is None else cut + 1
         checks.append(f"scope check {k} " + " ".join(ops[:k]) + " " + " ".join(ob[:k]))
@@ -376,7 +392,7 @@ def scope_stream(ck, pool, tier):
         if len(ck.cov["samples"]) < 5 and "d3-gadget" in feats and asf_c != spec:
             ck.sample({"ops": " ".join(ops), "scss": G.to_scss(gprogs[i][0]), "files": gprogs[i][1]})
         # tie: grass's lookups == the cached model's outputs (up to the first undefined lookup)
-        mo = now.split(",") if now != "-" else []
+        mo = now.split(",") if ops else []
         cut = next((j for j, o in enumerate(mo) if o == "u"), None)
         exp = [o if o[0] in "vu" else "-" for o in mo]
         if cut is not None:
@@ -456,13 +472,13 @@ def report(ck, pool, failing):
         if f["kind"] in ("eval", "eval-known"):
             known_only = f["kind"] == "eval-known"
             if known_only:
-                # explained by the as-found switches: which ones?
-                _, asf, spec, tags = classify(pool, f["prog"])
-                key = tuple(tags)
-                if key in seen_tags:
+                # explained by the as-found switches: one report per switch (smallest program first)
+                key = f.get("tags", ())
+                if key in seen_tags or len(key) != 1:
                     continue
                 seen_tags.add(key)
-            budget -= 1
+            else:
+                budget -= 1
 
             def fails(cands, known_only=known_only):
                 impl, _ = run_impl(pool, [(c, None) for c in cands])
@@ -471,7 +487,7 @@ def report(ck, pool, failing):
                 if known_only:
                     return [s not in MODEL_SKIP and a not in MODEL_SKIP and i == a and i != s for i, a, s in zip(impl, asf, spec)]
                 return [s not in MODEL_SKIP and a not in MODEL_SKIP and i != a for i, a, s in zip(impl, asf, spec)]
-            small = shrink(pool, f["prog"], fails)
+            small = shrink(pool, f["prog"], fails, rounds=25 if known_only else 60)
             impl, asf, spec, tags = classify(pool, small)
             text = G.to_scss(small)
             payload = {"source": text, "program": repr(small), "tokens": G.to_tokens(small),
